@@ -188,14 +188,21 @@ def is_handout(f, e):
 
 
 def r1(ctx, r):
-    fb, la = ctx.fb(), ctx.locks()
+    fb, la, cg = ctx.fb(), ctx.locks(), ctx.cg()
+    # a private method nobody calls any more (its single call was inlined into the caller and the definition left behind) cannot run:
+    # it has no call site to inherit a lock set from, and an access inside it is no access of the program
+    dead = {}
+    for cls_ in (TS, TW):
+        for f in fb.methods_of(cls_):
+            if f.ok and f.kind == "method" and f.access in ("private", "protected") and not cg.callers.get(f.name) and not f.raw.get("overrides") and not f.raw.get("virtual"):
+                dead[f.name] = "dead code: private and never called"
     for fld in ("_records", "_periodicTimers", "_heap", "_nextId"):
-        common.guarded_by(r, fb, la, TS + "::" + fld, TSM, files=[TSF])
+        common.guarded_by(r, fb, la, TS + "::" + fld, TSM, files=[TSF], exempt=dead)
     for fld in (TS + "::Record::canceled", TS + "::PeriodicTimer::canceled", TS + "::PeriodicTimer::nextExecution"):
-        common.guarded_by(r, fb, la, fld, TSM, files=[TSF], allow_kinds=("ctor", "dtor"))
+        common.guarded_by(r, fb, la, fld, TSM, files=[TSF], allow_kinds=("ctor", "dtor"), exempt=dead)
     for fld in ("_wheels", "_entryMap", "_lastAdvanceTime"):
-        common.guarded_by(r, fb, la, TW + "::" + fld, TWM, files=[TWF])
-    common.guarded_by(r, fb, la, TW + "::_freeListHead", TWP, files=[TWF])
+        common.guarded_by(r, fb, la, TW + "::" + fld, TWM, files=[TWF], exempt=dead)
+    common.guarded_by(r, fb, la, TW + "::_freeListHead", TWP, files=[TWF], exempt=dead)
     r.floor(80, "guarded access sites")
     # lock order _wheelMutex → _poolMutex, never the reverse
     from .c05 import lock_acquisitions
@@ -281,21 +288,18 @@ def r2(ctx, r):
             r.expect(happens_before(fb, q, is_map_erase) and happens_before(fb, q, is_unlink), q.fn, q.elem, "%s: fired without unlink/erase" % name,
                      "%s queues a callback without first unlinking the entry and erasing it from the entry map: cancel() could still report success for a timer that fires, "
                      "or the entry is collected twice" % name, okdesc="%s: unlink + _entryMap.erase before toFire" % name)
-    def is_unlink_entry(g, e):
-        return e.node.get("k") == "mcall" and e.node.get("callee") == TW + "::unlinkEntry"
-
     def is_insert_entry(g, e):
         return e.node.get("k") == "mcall" and e.node.get("callee") == TW + "::insertEntry"
     cnw = twf(ctx, "cancel")
     r.instance()
     ers = event_elems(fb, cnw, is_map_erase)
-    unl = event_elems(fb, cnw, is_unlink_entry)
+    unl = event_elems(fb, cnw, is_unlink)         # Bucket::unlink itself, or a helper (unlinkEntry) every path of which does it
     rt = [e for e in common.returns(cnw) if const_value(e.node.get("v") or {}) == 1]
     r.expect(ers and unl and rt and all(any(elem_dominates(cnw, x, t) for x in ers) and any(elem_dominates(cnw, x, t) for x in unl) and la.holds(cnw, t, TWM) for t in rt), cnw, None,
              "wheel cancel", "TimingWheel::cancel reports success without having unlinked the entry and erased it from the map under _wheelMutex", okdesc="wheel cancel: unlink + erase ⇒ true")
     rs = twf(ctx, "reschedule")
     r.instance()
-    unl = event_elems(fb, rs, is_unlink_entry)
+    unl = event_elems(fb, rs, is_unlink)
     ins = event_elems(fb, rs, is_insert_entry)
     rt = [e for e in common.returns(rs) if const_value(e.node.get("v") or {}) == 1]
     r.expect(unl and ins and rt and elem_dominates(rs, unl[0], ins[0]) and all(elem_dominates(rs, ins[0], t) for t in rt) and common.same_section(rs, la, unl[0], ins[0], TWM)[0], rs, None,
@@ -418,24 +422,54 @@ def r3(ctx, r):
         for a in gadds:
             r.instance()
             r.expect(adds_size(a.node, i), g, a, "announce count", "the pre-announce (in %s) does not add the size of the collected vector" % short(g.name), okdesc="fetch_add(ready.size()) in %s" % short(g.name))
-    # the counting guard
-    gdecl = [e for e in sr.stmts() if e.node.get("k") == "decl" and any("CountGuard" in v["t"] for v in e.node["vars"])]
+    # the counting guard: the local RAII object of safeRun whose exit action decrements — found by what it does, not by its type's
+    # name.  The exit action of a local is its class's destructor and, for the generic scope-exit idiom (a destructor that invokes a
+    # stored callable), the lambda the object is constructed from.
+    from ..locks import LOCK_TYPES as _LT
+
+    def exit_actions(f, v):
+        base = (v.get("t") or "").replace("const ", "").split("<")[0].strip()
+        if not base or base.startswith("std::") or base in ("bool", "int", "auto"):
+            return []
+        dtors = [g for g in fb.functions if g.ok and g.kind == "dtor" and g.cls and (g.cls == base or g.cls.endswith("::" + base)) and g.file.endswith(TSF)]
+        bodies = list(dtors)
+        if any(x.get("k") == "opcall" and x.get("op") == "()" and x.get("args") and (strip_casts(x["args"][0]) or {}).get("k") == "member" for d in dtors for x in d.nodes.values()):
+            for x in walk(v.get("init") or {}):
+                if x.get("k") == "lambda":
+                    bodies += [lf for (ln, lf) in f.lambdas if lf.ok and lf.name == x["fn"]]
+        return bodies
+
+    def is_sub(x):
+        return x.node.get("k") == "mcall" and last(x.node.get("callee", "")) == "fetch_sub"
+    guards = []
+    for e in sr.stmts():
+        if e.node.get("k") == "decl" and "root" in e.raw:
+            for v in e.node["vars"]:
+                bodies = [g for g in exit_actions(sr, v) if any(is_sub(x) for x in g.stmts())]
+                if bodies:
+                    guards.append((e, bodies))
+    if not guards:
+        # some other scoped object is destroyed on safeRun's exits but its exit action is not readable here (type defined elsewhere, a
+        # returned guard): refuse; no scoped object at all means the decrement is not tied to the exits — the violation the clause is about
+        if any(e.kind == "dtor" and not (e.raw.get("t") or "").startswith("std::") for e in sr.elems()):
+            raise AnalysisBroken("safeRun: a scoped object is destroyed on its exits but none whose exit action is seen to decrement a counter (the counting guard is not recognised)")
+        r.instance()
+        r.fail(sr, None, "count guard not first", "safeRun has no scoped object whose exit action decrements _executingCallbacks: an early return or an exception leaves the count up and drain() waits for ever")
+        guards = None
+    gdecl = [e for (e, _) in guards or []]
     r.instance()
     others = [e for e in sr.stmts() if "root" in e.raw and e not in gdecl and e.node.get("k") not in ("this",)]
-    r.expect(len(gdecl) == 1 and all(elem_dominates(sr, gdecl[0], e) for e in others), sr, gdecl[0] if gdecl else None, "count guard not first",
-             "safeRun has an exit that is not covered by the counting guard: _executingCallbacks would never return to zero and drain() waits for ever", okdesc="CountGuard is safeRun's first statement")
-    gd = [f for f in fb.functions if f.ok and f.name.endswith("CountGuard::<dtor>") and f.file.endswith(TSF)]
+    if guards:
+        r.expect(len(gdecl) == 1 and all(elem_dominates(sr, gdecl[0], e) for e in others), sr, gdecl[0] if gdecl else None, "count guard not first",
+                 "safeRun has an exit that is not covered by the counting guard: _executingCallbacks would never return to zero and drain() waits for ever", okdesc="CountGuard is safeRun's first statement")
     r.instance()
-    if not gd:
-        r.fail(sr, None, "CountGuard destructor", "CountGuard has no destructor any more")
-    else:
-        g = gd[0]
-        subs = [e for e in g.stmts() if e.node.get("k") == "mcall" and last(e.node.get("callee", "")) == "fetch_sub"]
-        nots = [e for e in g.stmts() if e.node.get("k") == "mcall" and last(e.node.get("callee", "")) in ("notify_all", "notify_one")]
-        lks = [e for e in g.stmts() if e.node.get("k") == "decl" and any(v["t"].startswith(("std::lock_guard", "std::unique_lock")) for v in e.node["vars"])]
-        r.expect(len(subs) == 1 and const_value(subs[0].node["args"][0]) == 1 and nots and lks and all(any(elem_dominates(g, l, n) for l in lks) for n in nots), g, None,
-                 "CountGuard idiom", "CountGuard's destructor does not decrement by one and take the mutex between the decrement and the notify (lost wake-up for drain())",
-                 okdesc="~CountGuard: fetch_sub(1); lock/unlock; notify_all")
+    g = guards[0][1][0] if guards else None
+    subs = [e for e in g.stmts() if is_sub(e)] if g else []
+    nots = [e for e in g.stmts() if e.node.get("k") == "mcall" and last(e.node.get("callee", "")) in ("notify_all", "notify_one")] if g else []
+    lks = [e for e in g.stmts() if e.node.get("k") == "decl" and any(_LT.match(v["t"]) for v in e.node["vars"])] if g else []
+    r.expect(g is not None and len(guards[0][1]) == 1 and len(subs) == 1 and const_value(subs[0].node["args"][0]) == 1 and nots and lks and all(any(elem_dominates(g, l, n) for l in lks) for n in nots), g or sr, None,
+             "CountGuard idiom", "CountGuard's destructor does not decrement by one and take the mutex between the decrement and the notify (lost wake-up for drain())",
+             okdesc="~CountGuard: fetch_sub(1); lock/unlock; notify_all")
     # wheel: callbacks fired outside the wheel lock
     for name in ("advance", "drain"):
         f = twf(ctx, name)
@@ -898,32 +932,75 @@ def r10(ctx, r):
                 for g in {id(c[0]): c[0] for c in site.chain[1:] + [(site.fn, None)] if c[0] is not col}.values():
                     if common.field_writes(g, rec + "::" + fld["n"]):
                         marks.add(rec + "::" + fld["n"])
-        cinits = {}
-        for e in can.stmts():
-            if e.node.get("k") == "decl":
-                for dv in e.node["vars"]:
-                    if dv.get("init") is not None:
-                        cinits[dv["d"]] = dv["init"]
+        def inits_of(g):
+            out = {}
+            for e in g.stmts():
+                if e.node.get("k") == "decl":
+                    for dv in e.node["vars"]:
+                        if dv.get("init") is not None:
+                            out[dv["d"]] = dv["init"]
+            return out
 
-        def members(c, depth=0):
+        def members(g, c, depth=0, _ci={}):
+            ci = _ci.setdefault(id(g), inits_of(g))
             out = set()
             for x in walk(c):
                 if x.get("k") == "member":
                     out.add(x["n"])
-                elif x.get("k") == "var" and x.get("d") in cinits and depth < 4:
-                    out |= members(cinits[x["d"]], depth + 1)
+                elif x.get("k") == "var" and x.get("d") in ci and depth < 4:
+                    out |= members(g, ci[x["d"]], depth + 1)
             return out
-        # every place where cancel() decides "found" must have looked at the mark
-        retv = {strip_casts(strip_wrappers(e.node["v"])).get("n") for e in common.returns(can) if e.node.get("v") is not None and strip_casts(strip_wrappers(e.node["v"])).get("k") == "var"}
-        sites = [e for e in can.stmts() if e.node.get("k") == "bin" and e.node["op"] == "=" and strip_casts(e.node["lhs"]).get("k") == "var" and strip_casts(e.node["lhs"])["n"] in retv
-                 and const_value(e.node["rhs"]) == 1]
+
+        # every place where cancel() decides "found": `result = true` for the returned variable, `return true`, and — where the result is
+        # (a disjunction of) what same-class helpers return — the same places inside those helpers.  Found by dataflow from the return.
+        def success_sites(g, depth=0, _open=()):
+            if depth > 3 or (g.file, g.line) in _open:
+                raise AnalysisBroken("cancel(): the origin of its result is too deep to follow")
+            opn = tuple(_open) + ((g.file, g.line),)
+            sites, seen_vars = [], set()
+
+            def value(e, v):
+                v = strip_casts(strip_wrappers(v)) if v is not None else None
+                if v is None:
+                    raise AnalysisBroken("cancel(): a result of unknown origin in %s" % short(g.name))
+                if const_value(v) is not None and v.get("k") in ("bool", "int"):
+                    if const_value(v):
+                        sites.append((g, e))
+                    return
+                if v.get("k") == "bin" and v.get("op") in ("||", "&&", "|", "&"):
+                    value(e, v["lhs"])
+                    value(e, v["rhs"])
+                    return
+                if v.get("k") == "var" and v.get("parm") is None:
+                    if v["d"] in seen_vars:
+                        return
+                    seen_vars.add(v["d"])
+                    for x in g.stmts():
+                        if x.node.get("k") == "decl":
+                            for dv in x.node["vars"]:
+                                if dv["d"] == v["d"] and dv.get("init") is not None:
+                                    value(x, dv["init"])
+                        elif x.node.get("k") == "bin" and x.node["op"] == "=" and (strip_casts(x.node["lhs"]) or {}).get("k") == "var" and strip_casts(x.node["lhs"]).get("d") == v["d"]:
+                            value(x, x.node["rhs"])
+                    return
+                hs = helper_defs(ctx.fb(), g, v)
+                if hs:
+                    for h_ in hs:
+                        sites.extend(success_sites(h_, depth + 1, opn))
+                    return
+                raise AnalysisBroken("cancel(): its result comes from `%s`, which the rule cannot trace to a `true`" % show(v)[:50])
+            for e in common.returns(g):
+                if e.node.get("v") is not None:
+                    value(e, e.node["v"])
+            return sites
+        sites = success_sites(can)
         if not sites:
-            raise AnalysisBroken("cancel(): no `result = true` site for the returned variable %s" % sorted(retv))
+            raise AnalysisBroken("cancel(): no place where its result becomes true was found")
         tested = None
-        for e in sites:
+        for (g, e) in sites:
             t_e = set()
-            for (c, t) in dominating_facts(can, e):
-                t_e |= members(c)
+            for (c, t) in dominating_facts(g, e):
+                t_e |= members(g, c)
             tested = t_e if tested is None else (tested & t_e)
         r.expect(bool(marks & tested), col, ra, "periodic firing handed out while its id stays cancellable",
                  "collectDueLocked copies the due firing's handler into the ready vector and, in the same critical section, re-arms a record under the same id (`%s`): cancel(id) finds that record / the periodic entry "
@@ -991,8 +1068,13 @@ def r11(ctx, r):
         # (b)
         ins = [e for e in f.stmts() if e.node.get("k") == "mcall" and e.node.get("callee") == TW + "::insertEntry"]
         loops = [b for b in f.blocks.values() if b.term and b.term.get("k") in ("WhileStmt", "ForStmt") and b.cond is not None]
+        def in_body(lb, pred):
+            return search(f, ("block", lb.succs[0]), pred, stop=lambda x, lb=lb: x.block is lb, eh=False) is not None
         for lb in loops:
-            inside = [e for e in ins if search(f, ("block", lb.succs[0]), lambda x, e=e: x is e, stop=lambda x, lb=lb: x.block is lb, eh=False) is not None]
+            inside = [e for e in ins if in_body(lb, lambda x, e=e: x is e)]
+            # the loop that walks the entries is the innermost one around the re-insertion: an enclosing loop (over levels, over ticks)
+            # whose body contains that loop is not the walk and has no entry cursor
+            inside = [e for e in inside if not any(l2 is not lb and in_body(l2, lambda x, e=e: x is e) and in_body(lb, lambda x, l2=l2: x.block is l2) for l2 in loops)]
             if not inside:
                 continue
             r.instance()
